@@ -72,6 +72,13 @@ theorem insert_scenario_frame (m : Multi) (j : Nat) (extra : List Override) (i :
   simp only [List.getElem?_map]
   rw [List.getElem?_insertIdx_of_lt hi]
 
+/-- a scenario whose overrides all name tasks the project does not have is scheduled exactly like the base project -/
+theorem void_overrides_same_result (m : Multi) (i : Nat) (ovs : List Override) (h : m.scenarios[i]? = some ovs)
+    (hv : ∀ o ∈ ovs, m.base.tasks.length ≤ o.task) :
+    (runAll m)[i]? = some (runScenario (elaborate m.base).env) := by
+  rw [scenario_result_is_own_projection, h]
+  simp only [Option.map_some, projection, foldl_applyOne_void ovs m.base.tasks hv]
+
 /-- a scenario has exactly the tasks of the base project -/
 theorem projection_task_count (b : RawProj) (ovs : List Override) : (projection b ovs).tasks.length = b.tasks.length :=
   foldl_applyOne_length ovs b.tasks
